@@ -195,7 +195,11 @@ func depthFlow(c *Ctx, sf *scopeFacts, nr *noRet, body *ast.BlockStmt, deferred 
 
 // R02a / R04d-a: push and pop are paired in every function of the backend.
 func rulePairing(c *Ctx, rule, rel string) {
-	sf := getScopeFacts(c, rel)
+	rulePairingSF(c, rule, rel, getScopeFacts(c, rel), 1)
+}
+
+// rulePairingSF is the pairing analysis for any acquire/release pair of methods (sf.push / sf.pop).
+func rulePairingSF(c *Ctx, rule, rel string, sf *scopeFacts, floorSites int) {
 	if sf == nil {
 		return
 	}
@@ -348,7 +352,7 @@ func rulePairing(c *Ctx, rule, rel string) {
 			}
 		}
 	}
-	c.floor(rule, "functions x scope expressions with push/pop", 1, sites)
+	c.floor(rule, "functions x scope expressions with push/pop", floorSites, sites)
 }
 
 func ruleR02a(c *Ctx) { rulePairing(c, "R02a", "soyhtml") }
@@ -1864,4 +1868,89 @@ func takesNodeType(c *Ctx, rel string, body ast.Node, typeName string) bool {
 		}
 	}
 	return false
+}
+
+// R09e: every mutex the module locks is unlocked on every returning path of the function that locked it
+// (a deferred Unlock counts at every exit). A path that returns with the lock held blocks every later
+// parse, compile or render that reaches the same lock, for the life of the process.
+func ruleLockPairing(c *Ctx, rule string) {
+	var rels []string
+	for rel := range c.Pkgs {
+		rels = append(rels, rel)
+	}
+	sort.Strings(rels)
+	npk := 0
+	for _, rel := range rels {
+		p := c.Pkgs[rel]
+		var syncPkg *types.Package
+		for _, imp := range p.Types.Imports() {
+			if imp.Path() == "sync" {
+				syncPkg = imp
+			}
+		}
+		npk++
+		if syncPkg == nil {
+			continue
+		}
+		sf := &scopeFacts{rel: rel, info: p.TypesInfo, push: map[*types.Func]bool{}, pop: map[*types.Func]bool{}, set: map[*types.Func]bool{}}
+		for _, tn := range []string{"Mutex", "RWMutex"} {
+			obj := syncPkg.Scope().Lookup(tn)
+			if obj == nil {
+				continue
+			}
+			named := obj.Type().(*types.Named)
+			for i := 0; i < named.NumMethods(); i++ {
+				m := named.Method(i)
+				switch m.Name() {
+				case "Lock", "RLock":
+					sf.push[m] = true
+				case "Unlock", "RUnlock":
+					sf.pop[m] = true
+				}
+			}
+		}
+		rulePairingSF(c, rule, rel, sf, 0)
+	}
+	c.floor(rule, "packages examined for lock pairing", 8, npk)
+}
+
+// R02n: in a called template the explicit {param}s have the last word: in evalCall nothing is bound in the
+// callee's scope after the loop that binds the params. (Entries of a passed data map copied in afterwards
+// overwrite a param of the same name; the language gives the param precedence.)
+func ruleR02n(c *Ctx) {
+	sf := getScopeFacts(c, "soyhtml")
+	fd := c.mustFunc("soyhtml", "state.evalCall")
+	if sf == nil || fd == nil {
+		return
+	}
+	info := sf.info
+	var loop *ast.RangeStmt
+	ast.Inspect(fd.Body, func(x ast.Node) bool {
+		if rs, ok := x.(*ast.RangeStmt); ok && loop == nil {
+			if fv := fieldOf(rs.X, info); fv != nil && fv.Name() == "Params" {
+				loop = rs
+			}
+		}
+		return true
+	})
+	if loop == nil {
+		c.fatalf("anchor: the loop over the call's params not found in evalCall")
+		return
+	}
+	var late []string
+	var latePos token.Pos
+	ast.Inspect(fd.Body, func(x ast.Node) bool {
+		call, ok := x.(*ast.CallExpr)
+		if !ok || call.Pos() <= loop.End() {
+			return true
+		}
+		if cal := calleeFunc(call, info); cal != nil && sf.set[cal] {
+			late = append(late, exprKey(call))
+			latePos = call.Pos()
+		}
+		return true
+	})
+	c.check(len(late) == 0, "R02n", "soyhtml.state.evalCall params-bound-last", loop.Pos(), "nothing is bound in the callee's scope after its explicit params",
+		"after the explicit params have been bound, evalCall binds more names in the callee's scope ("+strings.Join(late, ", ")+"): a name that is both a param and one of those is given the later value, so the callee does not see the param it was passed")
+	_ = latePos
 }
